@@ -3,6 +3,9 @@
  * ledger of what the caller owns; TLC checks  live = sum of footprints  after every step and 0 at the end.
  * Run on the ASan/UBSan objects: a sanitizer report aborts the history (abort event).  Histories run in forked children. */
 #include "common.h"
+#include <signal.h>
+#include <fcntl.h>
+#include <sys/stat.h>
 #include <locale.h>
 #include <unistd.h>
 #include <sys/wait.h>
@@ -74,7 +77,17 @@ static void step(void) {
     int rv = Crystal_AddCrystal(c >= 0 ? objs[c].p : NULL, arr, useslot ? &e : NULL); ev("Crystal_AddCrystal", c >= 0 ? ((Crystal_Struct *)objs[c].p)->name : "<NULL>", a, useslot, rv, a, K_ARRAY, had, l0, e != NULL); }
   else if (r < 74) { int a = live_of(K_ARRAY); if (a < 0) return; Crystal_Array *arr = objs[a].p; int had = arr->crystal != NULL; char path[300]; snprintf(path, sizeof path, "%s/xrl-c04-%d.dat", scratchdir, (int)getpid());
     int k = rndint(1, 3), bad = rndint(0, 1) ? 0 : rndint(1, 5); if (bad < 5) write_crystal_file(path, k, bad, stepno); else unlink(path);
-    l0 = W_live; int rv = Crystal_ReadFile(path, arr, useslot ? &e : NULL); ev("Crystal_ReadFile", bad == 0 ? "good" : "bad", a, useslot, rv, a, K_ARRAY, rv ? k * 10 + had : had, l0, e != NULL); unlink(path); }
+    /* one time in six the name does not refer to a regular file: a FIFO fed by another process (not seekable), a directory, the null device */
+    int kind = rndint(0, 5) ? 0 : rndint(1, 3); pid_t feeder = 0; char fifo[320]; const char *use = path;
+    if (kind == 1 && bad < 5) { snprintf(fifo, sizeof fifo, "%s.fifo", path); unlink(fifo);
+      if (mkfifo(fifo, 0600) == 0) { fflush(OUT); feeder = fork();
+        if (feeder == 0) { int in = open(path, O_RDONLY), out = open(fifo, O_WRONLY); char buf[4096]; ssize_t n; while (in >= 0 && out >= 0 && (n = read(in, buf, sizeof buf)) > 0) { if (write(out, buf, n) < 0) break; } _exit(0); }
+        use = fifo; } else kind = 0; }
+    else if (kind == 2) { use = scratchdir; k = 0; bad = 9; }
+    else if (kind == 3) { use = "/dev/null"; k = 0; bad = 9; }
+    else kind = 0;
+    l0 = W_live; int rv = Crystal_ReadFile(use, arr, useslot ? &e : NULL); ev("Crystal_ReadFile", bad == 0 ? "good" : "bad", a, useslot, rv, a, K_ARRAY, rv ? k * 10 + had : had, l0, e != NULL); unlink(path);
+    if (kind == 1) { int fd = open(fifo, O_RDONLY | O_NONBLOCK); if (fd >= 0) close(fd); if (feeder > 0) { kill(feeder, SIGKILL); waitpid(feeder, NULL, 0); } unlink(fifo); } }
   else if (r < 90) {   /* functions that allocate internally and hand nothing out */
     const char *s = STR[rndint(0, NSTR - 1)]; double E = (double[]){-1, 0, 0.5, 8.0, 17.44, 100.0, 5000.0}[rndint(0, 6)], rho = (double[]){-1, 0, 1.0, 2.5}[rndint(0, 3)]; int which = rndint(0, 7); xrl_error **pe = useslot ? &e : NULL; const char *nm;
     switch (which) {
